@@ -10,7 +10,9 @@
 
    Where two lock regions of one goroutine are separated only by thread-local code they
    are still two labels (LDialFailFor then LDec; LDialOkFor then LRelease; LTimeout then
-   LRelease; LClose then LCloseFin), so every interleaving with other threads is a trace. *)
+   LRelease; LClose then LCloseFin), so every interleaving with other threads is a trace.
+   CloseConn is modelled as it is since the fix "CloseConn frees the MaxConns slot only after the connection is
+   closed": Close() first (LClose .. LCloseFin), decConnsCount at LCloseFin. *)
 From FH Require Import Model.Base Gen.GenC18.
 Open Scope Z_scope.
 
@@ -45,7 +47,7 @@ Record st := {
   scratch : list nat;    (* conns removed from c.conns by the cleaner / CloseIdleConnections, about to be CloseConn'd *)
   dials : list dtask;    (* dials in flight, in start order *)
   decs : nat;            (* dialConnFor goroutines between tryDeliver(nil, err) and decConnsCount *)
-  closing : list nat;    (* CloseConn: decConnsCount done, cc.c.Close() not finished *)
+  closing : list nat;    (* CloseConn: inside cc.c.Close(); decConnsCount comes after it, the slot is still counted *)
   next : nat;            (* next connection id *)
   clock : Z }.
 
@@ -62,8 +64,8 @@ Inductive label :=
 | LTake (w : nat)                  (* select chose <-w.ready: return w.conn, w.err (+ deferred cancel when err != nil) *)
 | LTimeout (w : nat)               (* select chose <-tc.C: return ErrNoFreeConns/ErrTimeout, deferred w.cancel *)
 | LRelease (c : nat)               (* ReleaseConn(c) by whoever holds c *)
-| LClose (c : nat)                 (* CloseConn(c): decConnsCount *)
-| LCloseFin (c : nat)              (* CloseConn(c): cc.c.Close() returned *)
+| LClose (c : nat)                 (* CloseConn(c) is called: cc.c.Close() starts *)
+| LCloseFin (c : nat)              (* CloseConn(c): cc.c.Close() returned, then decConnsCount *)
 | LCleanIdle (k : nat)             (* connsCleaner / CloseIdleConnections: take the first k idle conns out of c.conns *)
 | LTick.                           (* one unit of time passes *)
 
@@ -257,12 +259,12 @@ Definition step (cf : cfg) (s : st) (l : label) : option st :=
       else None
   | LClose c =>
       if memb c (lent s) then
-        let s1 := dec_conns_count cf (with_lent s (remove_one c (lent s))) in Some (with_closing s1 (closing s1 ++ [c]))
+        let s1 := with_lent s (remove_one c (lent s)) in Some (with_closing s1 (closing s1 ++ [c]))
       else if memb c (scratch s) then
-        let s1 := dec_conns_count cf (with_scratch s (remove_one c (scratch s))) in Some (with_closing s1 (closing s1 ++ [c]))
+        let s1 := with_scratch s (remove_one c (scratch s)) in Some (with_closing s1 (closing s1 ++ [c]))
       else None
   | LCloseFin c =>
-      if memb c (closing s) then Some (with_closing s (remove_one c (closing s))) else None
+      if memb c (closing s) then Some (dec_conns_count cf (with_closing s (remove_one c (closing s)))) else None
   | LCleanIdle k =>
       if (k <=? length (idle s))%nat
       then Some (with_scratch (with_idle s (skipn k (idle s))) (scratch s ++ firstn k (idle s)))
@@ -283,7 +285,7 @@ Fixpoint run (cf : cfg) (s : st) (ls : list label) : option st :=
 Definition delivered_of (w : want) : list nat := match wst w with WDelivered c => [c] | _ => [] end.
 Definition delivered (ws : list want) : list nat := flat_map delivered_of ws.
 
-(* connections that exist and whose slot is still counted *)
+(* connections that exist and are not being closed *)
 Definition held (s : st) : list nat := idle s ++ lent s ++ rel s ++ scratch s ++ delivered (wants s).
 (* connections open (Close not finished) or being dialled *)
 Definition open_or_dialling (s : st) : Z :=
